@@ -34,6 +34,10 @@ type Program struct {
 	Invalid string  // non-empty: what makes the program uncompilable
 	seq     int
 
+	// ModelSilent (non-empty: why): the reference model does not describe this program's values;
+	// only what must hold regardless (order independence, nothing left unresolved) is checked.
+	ModelSilent string
+
 	// RecShape names the struct and the typedefs of a recursive structure one of whose
 	// members has a default leading back into it (the shape of open finding F6); nil otherwise.
 	RecShape []string
@@ -290,6 +294,9 @@ func Gen(o Options) *Program {
 	if !o.NoServices && simrt.Flip("prog.service-diamond", 0.4) {
 		p.addServiceDiamond(o)
 	}
+	if o.StructConsts && o.ConstRefs && simrt.Flip("prog.struct-const-reused", 0.1) {
+		p.addStructConstReuse()
+	}
 	if o.Consts && o.ConstRefs && simrt.Flip("prog.shared-list-const", 0.25) {
 		p.addSharedListConst()
 	}
@@ -509,6 +516,30 @@ func (p *Program) addServiceDiamond(o Options) {
 	par := mk(t.b, "Parent", nil)
 	mk(t.b, "Achild", &Ref{par.File, par.Name})
 	mk(t.f, "Sibling", &Ref{par.File, par.Name})
+}
+
+// addStructConstReuse: one struct constant referred to where other structs (same field
+// name, another numeric type) are declared - the compiler accepts that and casts the literal
+// again for each user; the model makes no claim about the values.
+func (p *Program) addStructConstReuse() {
+	f := p.Files[ch("scr.file", len(p.Files))]
+	types := []string{"i32", "double", "i64", "i16"}
+	var ss []*Def
+	n := 2 + ch("scr.structs", 2)
+	for i := 0; i < n; i++ {
+		ss = append(ss, p.add(f, &Def{Kind: KStruct, Name: p.name("Sr"), Fields: []*FieldDef{
+			{ID: 1, Name: "x", Req: ReqOptional, Type: &TypeRef{Base: types[(i+ch("scr.type", 4))%4]}},
+			{ID: 2, Name: "y", Req: ReqOptional, Type: &TypeRef{Base: "double"}, Default: &ConstVal{Kind: CInt, Int: 2}}}}))
+	}
+	a := p.add(f, &Def{Kind: KConst, Name: p.name("Ca"), Type: &TypeRef{Ref: &Ref{ss[0].File, ss[0].Name}},
+		Value: &ConstVal{Kind: CStruct, Items: []*ConstVal{{Kind: CString, Str: "x"}, {Kind: CInt, Int: int64(1 + ch("scr.val", 9))}}}})
+	for _, st := range ss[1:] {
+		p.add(f, &Def{Kind: KConst, Name: p.name("Cb"), Type: &TypeRef{Ref: &Ref{st.File, st.Name}}, Value: &ConstVal{Kind: CRef, Ref: &Ref{a.File, a.Name}}})
+	}
+	if simrt.Flip("scr.same-again", 0.5) {
+		p.add(f, &Def{Kind: KConst, Name: p.name("Cc"), Type: &TypeRef{Ref: &Ref{ss[0].File, ss[0].Name}}, Value: &ConstVal{Kind: CRef, Ref: &Ref{a.File, a.Name}}})
+	}
+	p.ModelSilent = "a struct constant is used as a constant of other structs in " + f.RelPath()
 }
 
 // addSharedListConst: one list constant that several constants and defaults refer to under
